@@ -6,25 +6,26 @@ import TakVerif.Proofs.NoPanic
 namespace Tak
 open Spec (abs decode)
 
+theorem new_cell_empty {cfg : Cfg} {p : Pos} (h : Pos.new cfg = .ok p) (j : Nat) : p.cell j = Cell.empty := by
+  obtain ⟨_, _, hp⟩ := new_ok h
+  rw [hp]
+  apply Cell.ext' <;> simp only [Pos.cell, Cell.empty]
+  · simp
+  · simp
+  · simp
+  · simp
+  · exact getD_replicate _ _ _
+  · exact getD_replicate _ _ _
+
 /-- `tak.New` yields a well-formed position for every configuration it accepts (size 3..8) -/
 theorem new_wf (basis : Array W) {cfg : Cfg} {p : Pos} (h : Pos.new cfg = .ok p) : WF basis p := by
   have hh := new_hinv basis h
   obtain ⟨h3, h8, hp⟩ := new_ok h
-  have hcell : ∀ j, p.cell j = Cell.empty := by
-    intro j
-    rw [hp]
-    apply Cell.ext' <;> simp only [Pos.cell, Cell.empty]
-    · simp
-    · simp
-    · simp
-    · simp
-    · exact getD_replicate _ _ _
-    · exact getD_replicate _ _ _
   refine { size_ge := by rw [hp]; exact h3, size_le := by rw [hp]; exact h8, consts := by rw [hp],
            height_size := by rw [hp]; simp, stacks_size := by rw [hp]; simp,
            cell := ?_, hash := hh.hash, move_nonneg := by rw [hp]; simp }
   intro j
-  rw [hcell j]
+  rw [new_cell_empty h j]
   exact Cell.empty_wf
 
 /-- the rule book applied to a list of moves -/
